@@ -480,6 +480,12 @@ C15_Saturated == AfterGw => \A i \in PL : ((i - 1) * 1000000 >= Ev.grw) => Ev.W[
 FirstSeen == LET k == CHOOSE k \in 1..Len(gwseen) : gwseen[k][1] = Ev.grw IN Trace[gwseen[k][2]]
 C15_SameLevel == AfterGw => /\ FirstSeen.W = Ev.W /\ FirstSeen.WMIN = Ev.WMIN /\ FirstSeen.PORGES = Ev.PORGES
                             /\ FirstSeen.WNOR = Ev.WNOR /\ FirstSeen.WRED = Ev.WRED
+\* ... and the level the run started with (Init: the day before the first day) counts as a level the table had: when the
+\* table is back there, wilting point, pore volume and uncorrected field capacity are those of the start (the field
+\* capacity of the start is a mixture of two levels - the table of the input files and the level of the day - and is
+\* not compared)
+C15_StartLevel == (AfterGw /\ ix.cfg > 0 /\ Ev.grw = Cfg.grw) =>
+   Cfg.WMIN = Ev.WMIN /\ Cfg.PORGES = Ev.PORGES /\ Cfg.WNOR = Ev.WNOR
 \* explicit route (field capacity, wilting point and pore volume given in the soil file; header: Gen.fcBase / wpBase /
 \* pvBase per layer at 1e-9): the parameters in use are a FUNCTION OF THE LEVEL (init.go setFieldCapacityWithGW): layers
 \* entirely above the table carry the given field capacity, the layer that holds the table is interpolated between
@@ -504,7 +510,7 @@ C15_ExplicitAtStart == (l > 1 /\ Ev.ev = "run.config" /\ HasBase) => \A i \in PL
    /\ Ev.WMIN[i] = Gen.wpBase[i] /\ Ev.PORGES[i] = Gen.pvBase[i]
    /\ Ev.W[i] >= Gen.fcBase[i] /\ Ev.W[i] <= Gen.pvBase[i]
    /\ (i * 1000000 + 500000 < Min(Ev.gw, Ev.grw) => Ev.W[i] = Gen.fcBase[i])
-C15_All == C15_LevelFunction /\ C15_ExplicitAtStart /\ C15_Order /\ C15_FcLePv /\ C15_Threshold /\ C15_Saturated /\ C15_SameLevel
+C15_All == C15_StartLevel /\ C15_LevelFunction /\ C15_ExplicitAtStart /\ C15_Order /\ C15_FcLePv /\ C15_Threshold /\ C15_Saturated /\ C15_SameLevel
 
 
 \* =============================================================================================
